@@ -14,7 +14,7 @@ THEOREMS = [f"Httpcore.C02.{n}" for n in (
     "h1_segmentation", "h1_segmentation_open", "h1_interim_skipped", "h1_body_content_length", "h1_truncation_cl",
     "h1_truncation_head", "h1_body_until_close", "headGives_of_extract", "extract_head_status",
     "h2_body_exact", "h2_truncation", "recv_is_strict", "h1_body_chunked")] + [
-    f"Httpcore.C02H.{n}" for n in ("parse_head_roundtrip", "head_ends_where_it_ends", "final_head_delivered", "wellFormed_of_b")]
+    f"Httpcore.C02H.{n}" for n in ("parse_head_roundtrip", "head_ends_where_it_ends", "final_head_delivered", "wellFormed_of_b", "parse_head_roundtrip_spelled", "parseHeaderLine_spelled", "stripOWS_pad")]
 TRUSTED = [
     "Lean 4.33 kernel; axioms per theorem under coverage.theorems",
     "hand-written byte-level model of h11 0.14's response reader and of httpcore's receive loops (H1Read/H1Obs), tied by differential execution on structured, cut and malformed streams (this run)",
@@ -30,8 +30,10 @@ LEVEL_TEXT = ("Lean 4 theorems about the byte-level model of the response reader
               "to the code by differential execution over structured responses, cuts inside CRLF / chunk lines, every truncation point and a "
               "malformed stream, on sync/asyncio/trio.")
 LEVEL_NOTE = ("Trusted: Lean kernel; the hand-written model of h11's reader (validated by this run's differential only); simulated network. "
-              "Partial: exact decoding of a well-formed head (status line, header lines) and chunked bodies are validated by the differential "
-              "against generator ground truth, not proved; HTTP/2 DATA delivery is checked against the real h2 peer at event level (framing/HPACK trusted).")
+              "Exact decoding of a well-formed head is a theorem about that model (C02H.parse_head_roundtrip, head_ends_where_it_ends, "
+              "final_head_delivered: status line, header lines in canonical `name: value` form, end of head) and the model's own rendering is "
+              "applied to the implementation on every run. Every legal spelling of a header line (any run of spaces / tabs after the colon and "
+              "after the value) is covered too (parse_head_roundtrip_spelled). Partial: obsolete line folding and chunk extensions are validated by the differential against generator ground truth, not proved; HTTP/2 DATA delivery is checked against the real h2 peer at event level (framing/HPACK trusted).")
 TECHNIQUE = "Lean 4 proof (generic incremental-extractor theorem instantiated with the h11 reader model) + differential execution"
 DESIGN_REF = "§5 C02"
 
